@@ -45,7 +45,7 @@ def tb_rows(ns):
 
 UNSIZED_BASE = '''#%%yanny
 # base file with an unsized string column
-k0 0
+K0 0
 
 typedef struct {
     int n;
@@ -77,7 +77,7 @@ class World:
             self.par = yanny()
         else:
             if rng.random() < 0.5:
-                write_ndarray_to_yanny(self.path(start), [ta_rows([1, 2]), tb_rows([])], structnames=['TA', 'TB'], hdr={'k0': 0})
+                write_ndarray_to_yanny(self.path(start), [ta_rows([1, 2]), tb_rows([])], structnames=['TA', 'TB'], hdr={'K0': 0})
             else:
                 # the same base content as a hand-written file whose string column is unsized (char s[])
                 with open(self.path(start), 'w') as fh:
@@ -271,7 +271,7 @@ def random_trace(root, rng, nops):
     fs0, obj0 = w.snapshot()
     events = []
     nextid = 10
-    used = {'k0'}
+    used = {'K0'}
     for _ in range(nops):
         op = rng.choice(['append', 'append', 'append', 'write', 'write', 'delete', 'reread', 'append'])
         call = {'op': op, 'f': NOFILE, 'pairs': [], 'rows': {t: [] for t in TABLES}}
@@ -293,7 +293,7 @@ def random_trace(root, rng, nops):
         else:
             call['f'] = cur
             if rng.random() < 0.35:
-                k = rng.choice(['key%d' % nextid, 'enum', 'struct', 'typedefs'])
+                k = rng.choice(['key%d' % nextid, 'enum', 'struct', 'typedefs', 'k0'])   # 'k0' differs from the base keyword 'K0' only in case
                 if k in used:
                     k = 'key%d' % nextid
                 call['pairs'] = [[k, nextid]]
